@@ -83,6 +83,9 @@ public:
 
     void swap(Ptr& other)
     {
+      Object* tmpRefObj = other.refObj;
+      other.refObj = refObj;
+      refObj = tmpRefObj;
       C* tmp = other.obj;
       other.obj = obj;
       obj = tmp;
